@@ -56,6 +56,7 @@ func (p *PolicyManager) AddPolicy(policy *networkv1.NetworkPolicy) error {
 	p.syncNetworkPolices()
 	p.syncNetworkPolicyRules()
 	p.syncPods()
+	p.deleteKeptPolicyChains()
 	return nil
 }
 
@@ -63,6 +64,7 @@ func (p *PolicyManager) UpdatePolicy(oldPolicy, newPolicy *networkv1.NetworkPoli
 	p.syncNetworkPolices()
 	p.syncNetworkPolicyRules()
 	p.syncPods()
+	p.deleteKeptPolicyChains()
 	return nil
 }
 
